@@ -75,14 +75,14 @@ pub fn check_validity_for_reuse_statistic(
         ILLEGAL_GLOBAL_STATISTIC_PARAMS_ERROR,
     )?;
     let parent_bucket_length_in_ms = parent_interval_ms / parent_sample_count;
+        proof { lemma_div_pos(parent_interval_ms as int, parent_sample_count as int); }
 
     //SlidingWindowMetric's intervalInMs is not divisible by BucketLeapArray's intervalInMs
     if parent_interval_ms % interval_ms != 0 {
         return Err(Error::msg(GLOBAL_STATISTIC_NON_REUSABLE_ERROR));
     }
-    // BucketLeapArray's BucketLengthInMs is not divisible by SlidingWindowMetric's BucketLengthInMs
-    proof { lemma_div_pos(parent_interval_ms as int, parent_sample_count as int); }
-        if bucket_length_in_ms % parent_bucket_length_in_ms != 0 {
+    // SlidingWindowMetric's BucketLengthInMs is finer than BucketLeapArray's BucketLengthInMs
+    if bucket_length_in_ms < parent_bucket_length_in_ms {
         return Err(Error::msg(GLOBAL_STATISTIC_NON_REUSABLE_ERROR));
     }
     Ok(())
